@@ -9,6 +9,7 @@ import (
 )
 
 func pt() { zzvrt.Point(zzvrt.KAtomic, nil) }
+func pp() { zzvrt.PostPoint() }
 
 type integer interface {
 	~int32 | ~int64 | ~uint32 | ~uint64 | ~uintptr
@@ -17,15 +18,16 @@ type integer interface {
 type num[T integer] struct{ v T }
 
 func (x *num[T]) Load() T    { pt(); return x.v }
-func (x *num[T]) Store(v T)  { pt(); x.v = v }
-func (x *num[T]) Swap(v T) T { pt(); o := x.v; x.v = v; return o }
-func (x *num[T]) Add(d T) T  { pt(); x.v += d; return x.v }
-func (x *num[T]) And(m T) T  { pt(); o := x.v; x.v &= m; return o }
-func (x *num[T]) Or(m T) T   { pt(); o := x.v; x.v |= m; return o }
+func (x *num[T]) Store(v T)  { pt(); x.v = v; pp() }
+func (x *num[T]) Swap(v T) T { pt(); o := x.v; x.v = v; pp(); return o }
+func (x *num[T]) Add(d T) T  { pt(); x.v += d; n := x.v; pp(); return n }
+func (x *num[T]) And(m T) T  { pt(); o := x.v; x.v &= m; pp(); return o }
+func (x *num[T]) Or(m T) T   { pt(); o := x.v; x.v |= m; pp(); return o }
 func (x *num[T]) CompareAndSwap(o, n T) bool {
 	pt()
 	if x.v == o {
 		x.v = n
+		pp()
 		return true
 	}
 	return false
@@ -43,12 +45,13 @@ type Uintptr struct{ num[uintptr] }
 type Bool struct{ v bool }
 
 func (x *Bool) Load() bool       { pt(); return x.v }
-func (x *Bool) Store(v bool)     { pt(); x.v = v }
-func (x *Bool) Swap(v bool) bool { pt(); o := x.v; x.v = v; return o }
+func (x *Bool) Store(v bool)     { pt(); x.v = v; pp() }
+func (x *Bool) Swap(v bool) bool { pt(); o := x.v; x.v = v; pp(); return o }
 func (x *Bool) CompareAndSwap(o, n bool) bool {
 	pt()
 	if x.v == o {
 		x.v = n
+		pp()
 		return true
 	}
 	return false
@@ -57,13 +60,14 @@ func (x *Bool) CompareAndSwap(o, n bool) bool {
 type Pointer[T any] struct{ p *T }
 
 func (x *Pointer[T]) Load() *T     { pt(); return x.p }
-func (x *Pointer[T]) Store(p *T)   { pt(); x.p = p }
-func (x *Pointer[T]) Swap(p *T) *T { pt(); o := x.p; x.p = p; return o }
+func (x *Pointer[T]) Store(p *T)   { pt(); x.p = p; pp() }
+func (x *Pointer[T]) Swap(p *T) *T { pt(); o := x.p; x.p = p; pp(); return o }
 func (x *Pointer[T]) Peek() *T     { return x.p }
 func (x *Pointer[T]) CompareAndSwap(o, n *T) bool {
 	pt()
 	if x.p == o {
 		x.p = n
+		pp()
 		return true
 	}
 	return false
@@ -72,43 +76,51 @@ func (x *Pointer[T]) CompareAndSwap(o, n *T) bool {
 type Value struct{ v any }
 
 func (x *Value) Load() any      { pt(); return x.v }
-func (x *Value) Store(v any)    { pt(); x.v = v }
-func (x *Value) Swap(v any) any { pt(); o := x.v; x.v = v; return o }
+func (x *Value) Store(v any)    { pt(); x.v = v; pp() }
+func (x *Value) Swap(v any) any { pt(); o := x.v; x.v = v; pp(); return o }
 func (x *Value) CompareAndSwap(o, n any) bool {
 	pt()
 	if x.v == o {
 		x.v = n
+		pp()
 		return true
 	}
 	return false
 }
 
-func LoadInt32(p *int32) int32                                       { pt(); return *p }
-func LoadInt64(p *int64) int64                                       { pt(); return *p }
-func LoadUint32(p *uint32) uint32                                    { pt(); return *p }
-func LoadUint64(p *uint64) uint64                                    { pt(); return *p }
-func LoadUintptr(p *uintptr) uintptr                                 { pt(); return *p }
-func LoadPointer(p *unsafe.Pointer) unsafe.Pointer                   { pt(); return *p }
-func StoreInt32(p *int32, v int32)                                   { pt(); *p = v }
-func StoreInt64(p *int64, v int64)                                   { pt(); *p = v }
-func StoreUint32(p *uint32, v uint32)                                { pt(); *p = v }
-func StoreUint64(p *uint64, v uint64)                                { pt(); *p = v }
-func StoreUintptr(p *uintptr, v uintptr)                             { pt(); *p = v }
-func StorePointer(p *unsafe.Pointer, v unsafe.Pointer)               { pt(); *p = v }
-func AddInt32(p *int32, d int32) int32                               { pt(); *p += d; return *p }
-func AddInt64(p *int64, d int64) int64                               { pt(); *p += d; return *p }
-func AddUint32(p *uint32, d uint32) uint32                           { pt(); *p += d; return *p }
-func AddUint64(p *uint64, d uint64) uint64                           { pt(); *p += d; return *p }
-func AddUintptr(p *uintptr, d uintptr) uintptr                       { pt(); *p += d; return *p }
-func SwapInt32(p *int32, v int32) int32                              { pt(); o := *p; *p = v; return o }
-func SwapInt64(p *int64, v int64) int64                              { pt(); o := *p; *p = v; return o }
-func SwapUint32(p *uint32, v uint32) uint32                          { pt(); o := *p; *p = v; return o }
-func SwapUint64(p *uint64, v uint64) uint64                          { pt(); o := *p; *p = v; return o }
-func SwapPointer(p *unsafe.Pointer, v unsafe.Pointer) unsafe.Pointer { pt(); o := *p; *p = v; return o }
+func LoadInt32(p *int32) int32                         { pt(); return *p }
+func LoadInt64(p *int64) int64                         { pt(); return *p }
+func LoadUint32(p *uint32) uint32                      { pt(); return *p }
+func LoadUint64(p *uint64) uint64                      { pt(); return *p }
+func LoadUintptr(p *uintptr) uintptr                   { pt(); return *p }
+func LoadPointer(p *unsafe.Pointer) unsafe.Pointer     { pt(); return *p }
+func StoreInt32(p *int32, v int32)                     { pt(); *p = v; pp() }
+func StoreInt64(p *int64, v int64)                     { pt(); *p = v; pp() }
+func StoreUint32(p *uint32, v uint32)                  { pt(); *p = v; pp() }
+func StoreUint64(p *uint64, v uint64)                  { pt(); *p = v; pp() }
+func StoreUintptr(p *uintptr, v uintptr)               { pt(); *p = v; pp() }
+func StorePointer(p *unsafe.Pointer, v unsafe.Pointer) { pt(); *p = v; pp() }
+func AddInt32(p *int32, d int32) int32                 { pt(); *p += d; n := *p; pp(); return n }
+func AddInt64(p *int64, d int64) int64                 { pt(); *p += d; n := *p; pp(); return n }
+func AddUint32(p *uint32, d uint32) uint32             { pt(); *p += d; n := *p; pp(); return n }
+func AddUint64(p *uint64, d uint64) uint64             { pt(); *p += d; n := *p; pp(); return n }
+func AddUintptr(p *uintptr, d uintptr) uintptr         { pt(); *p += d; n := *p; pp(); return n }
+func SwapInt32(p *int32, v int32) int32                { pt(); o := *p; *p = v; pp(); return o }
+func SwapInt64(p *int64, v int64) int64                { pt(); o := *p; *p = v; pp(); return o }
+func SwapUint32(p *uint32, v uint32) uint32            { pt(); o := *p; *p = v; pp(); return o }
+func SwapUint64(p *uint64, v uint64) uint64            { pt(); o := *p; *p = v; pp(); return o }
+func SwapPointer(p *unsafe.Pointer, v unsafe.Pointer) unsafe.Pointer {
+	pt()
+	o := *p
+	*p = v
+	pp()
+	return o
+}
 func CompareAndSwapInt32(p *int32, o, n int32) bool {
 	pt()
 	if *p == o {
 		*p = n
+		pp()
 		return true
 	}
 	return false
@@ -117,6 +129,7 @@ func CompareAndSwapInt64(p *int64, o, n int64) bool {
 	pt()
 	if *p == o {
 		*p = n
+		pp()
 		return true
 	}
 	return false
@@ -125,6 +138,7 @@ func CompareAndSwapUint32(p *uint32, o, n uint32) bool {
 	pt()
 	if *p == o {
 		*p = n
+		pp()
 		return true
 	}
 	return false
@@ -133,6 +147,7 @@ func CompareAndSwapUint64(p *uint64, o, n uint64) bool {
 	pt()
 	if *p == o {
 		*p = n
+		pp()
 		return true
 	}
 	return false
@@ -141,6 +156,7 @@ func CompareAndSwapPointer(p *unsafe.Pointer, o, n unsafe.Pointer) bool {
 	pt()
 	if *p == o {
 		*p = n
+		pp()
 		return true
 	}
 	return false
